@@ -1008,13 +1008,13 @@ Definition purge_spared (inv_id : bytes -> option bytes) (bk : bucket) (cp oid r
   else is_object_dir below.
 
 Lemma purge_refused_lemma inv_id cp oid mapped bk :
-  s3_validate_object_root (bk_keys bk) cp (trim_slashes mapped) = Err ->
+  s3_validate_object_root (bk_keys bk) cp (trim_trailing_slashes mapped) = Err ->
   purge_object inv_id None cp oid mapped (init_st bk) = (Err, init_st bk).
 Proof. intros H. unfold purge_object, init_st. cbn [st_b]. now rewrite H. Qed.
 
 Lemma purge_guarded_lemma inv_id cp oid mapped bk objs dirs :
   pfx_ok cp = true -> keys_boundary_ok cp (bk_keys bk) ->
-  let root := trim_slashes mapped in
+  let root := trim_trailing_slashes mapped in
   s3_validate_object_root (bk_keys bk) cp root = Ok tt ->
   list_all (bk_keys bk) cp root true = Ok (objs, dirs) ->
   exists below, list_all (bk_keys bk) cp root false = Ok (below, []) /\
@@ -1057,7 +1057,8 @@ Lemma purge_guard_cases :
   bk_keys (st_b (snd (run (b "urn:obj:1") (b "1")))) =
     [b "p/coll/obj1/0=ocfl_object_1.0"; b "p/coll/obj1/inventory.json"; b "p/coll/obj1/v1/content/a";
      b "p/extensions/0002-flat-direct-storage-layout/config.json"] /\
-  bk_keys (st_b (snd (run (b "coll/obj1") (b "/coll/obj1/")))) =
+  bk_keys (st_b (snd (run (b "coll/obj1") (b "coll/obj1//")))) =
     [b "p/1/0=ocfl_object_1.1"; b "p/1/inventory.json"; b "p/extensions/0002-flat-direct-storage-layout/config.json"] /\
+  run (b "/coll/obj1") (b "/coll/obj1") = (Err, init_st bk) /\              (* a leading slash is not trimmed: empty first part *)
   run (b "nothing") (b "nothing") = (Ok tt, mkSt bk 0 []).
 Proof. repeat split; vm_compute; reflexivity. Qed.
